@@ -69,6 +69,9 @@ SigCfg(j, ki, vi, pki, hi) ==
       scope |-> "all", created |-> Base, expires |-> IF j % 3 = 0 THEN 0 ELSE 100000, keycreated |-> Base - 5000, now |-> Base + 77,
       siggrammar |-> SigGrammar(pk), keygrammar |-> KeyGrammar(pk)]
 SigFull(j) == SigCfg(j, j \div 72, (j \div 36) % 2, (j \div 9) % 4, j % 9)
+(* sigx: every (kind, signature type) pair x version x algorithm x hash *)
+KindTypePairs == Flat([k \in 1..Len(KindSeq) |-> Tup([t \in 1..Len(KindTypes(KindSeq[k])) |-> <<k - 1, KindTypes(KindSeq[k])[t]>>])])
+SigX(j) == LET kt == KindTypePairs[(j \div 72) + 1] IN [SigCfg(j, kt[1], (j \div 36) % 2, (j \div 9) % 4, j % 9) EXCEPT !.type = kt[2]]
 SigQuick(j) == IF j < 56 THEN SigCfg(j, j \div 8, (j \div 4) % 2, j % 4, (j * 5 + (j \div 8)) % 9)
                ELSE LET r == j - 56 IN SigCfg(j, (r * 3) % 7, r % 2, r \div 9, r % 9)
 CaseSigOf(j, x) ==
@@ -198,6 +201,12 @@ AeadIn(j, si, mi, ci, ni) ==
   IN [sk |-> sk, aead |-> aead, c |-> c, n |-> n, data |-> AeadPlain(c, n), key |-> Pat(KeyOctets(sk), Seed + 5 * j + 2),
       grammar |-> AeadGrammar(sk, aead, c, n), structs |-> AeadStructs(c, n)]
 AeadFullIn(j) == AeadIn(j, j \div (2 * 3 * NLenAround), (j \div (3 * NLenAround)) % 2, (j \div NLenAround) % 3, j % NLenAround)
+ChunkOctetsX == <<0, 1, 2, 3>>
+NAeadX == Len(AeadCipherSeq) * Len(AeadModes) * Len(ChunkOctetsX) * NLenAround
+AeadXIn(j) == LET si == j \div (2 * 4 * NLenAround)  mi == (j \div (4 * NLenAround)) % 2  ci == (j \div NLenAround) % 4  ni == j % NLenAround
+                  sk == AeadCipherSeq[si + 1]  aead == AeadModes[mi + 1]  c == ChunkOctetsX[ci + 1]  n == LenAround(c)[ni + 1]
+              IN [sk |-> sk, aead |-> aead, c |-> c, n |-> n, data |-> AeadPlain(c, n), key |-> Pat(KeyOctets(sk), Seed + 5 * j + 2),
+                  grammar |-> AeadGrammar(sk, aead, c, n), structs |-> AeadStructs(c, n)]
 AeadQuickIn(j) == AeadIn(j, (j + (j \div NLenAround)) % Len(AeadCipherSeq), j \div (3 * NLenAround), (j \div NLenAround) % 3, j % NLenAround)
 CaseAeadOf(j, x) ==
   LET m == SealMessage("rfc", SymPts(x.c, x.n)) IN
@@ -242,6 +251,7 @@ CasePkesk(j) ==
 Case == CASE Family = "valid" -> CaseValid(i)
           [] Family = "sig" -> CaseSigOf(i, SigFull(i))
           [] Family = "sigq" -> CaseSigOf(i, SigQuick(i))
+          [] Family = "sigx" -> CaseSigOf(i, SigX(i))
           [] Family \in {"doclen", "doclenq"} -> CaseDocLen(i)
           [] Family = "textcanon3" -> CaseTextCanon(i, 3)
           [] Family = "textcanon4" -> CaseTextCanon(i, 4)
@@ -249,27 +259,31 @@ Case == CASE Family = "valid" -> CaseValid(i)
           [] Family = "sesskey" -> CaseSessKey(i)
           [] Family = "aead" -> CaseAeadOf(i, AeadFullIn(i))
           [] Family = "aeadq" -> CaseAeadOf(i, AeadQuickIn(i))
+          [] Family = "aeadx" -> CaseAeadOf(i, AeadXIn(i))
+          [] Family = "textcanon5" -> CaseTextCanon(i, 5)
           [] Family = "pkesk" -> CasePkesk(i)
 Thm == CASE Family = "valid" -> ThmValid(i)
          [] Family = "sig" -> ThmSigOf(SigFull(i))
          [] Family = "sigq" -> ThmSigOf(SigQuick(i))
+         [] Family = "sigx" -> ThmSigOf(SigX(i))
          [] Family \in {"doclen", "doclenq"} -> TRUE
-         [] Family \in {"textcanon3", "textcanon4"} -> ThmTextCanon(i)
+         [] Family \in {"textcanon3", "textcanon4", "textcanon5"} -> ThmTextCanon(i)
          [] Family = "seipd" -> ThmSeipdCase(i)
          [] Family = "sesskey" -> ThmSessKey(i)
          [] Family = "aead" -> ThmAeadOf(AeadFullIn(i))
          [] Family = "aeadq" -> ThmAeadOf(AeadQuickIn(i))
+         [] Family = "aeadx" -> ThmAeadOf(AeadXIn(i))
          [] Family = "pkesk" -> TRUE
-FamilySize == [valid |-> NValid, sig |-> 504, sigq |-> 92, doclen |-> 602, doclenq |-> 142, textcanon3 |-> NStr(3), textcanon4 |-> NStr(4),
+FamilySize == [valid |-> NValid, sig |-> 504, sigq |-> 92, sigx |-> 72 * Len(KindTypePairs), aeadx |-> NAeadX, textcanon5 |-> NStr(5), doclen |-> 602, doclenq |-> 142, textcanon3 |-> NStr(3), textcanon4 |-> NStr(4),
                seipd |-> NSeipd, sesskey |-> 4 * Len(SessFaults), aead |-> NAeadFull, aeadq |-> NAeadQuick, pkesk |-> NPkesk]
 LastOf(fam) == Min(Hi, FamilySize[fam] - 1)
 GrpQ1 == <<"valid", "sesskey", "pkesk", "textcanon3", "doclenq">>
 GrpQ2 == <<"sigq", "seipd", "aeadq">>
-GrpT1 == <<"valid", "sesskey", "pkesk", "textcanon4", "seipd">>
-GrpT2 == <<"sig">>
-GrpT3 == <<"aead">>
+GrpT1 == <<"valid", "sesskey", "pkesk", "textcanon5", "seipd">>
+GrpT2 == <<"sigx">>
+GrpT3 == <<"aeadx">>
 GrpT4 == <<"doclen">>
-One_doclenq == <<"doclenq">>  One_valid == <<"valid">>  One_sig == <<"sig">>  One_sigq == <<"sigq">>  One_doclen == <<"doclen">>
+One_sigx == <<"sigx">>  One_aeadx == <<"aeadx">>  One_textcanon5 == <<"textcanon5">>  One_doclenq == <<"doclenq">>  One_valid == <<"valid">>  One_sig == <<"sig">>  One_sigq == <<"sigq">>  One_doclen == <<"doclen">>
 One_textcanon3 == <<"textcanon3">>  One_textcanon4 == <<"textcanon4">>  One_seipd == <<"seipd">>
 One_sesskey == <<"sesskey">>  One_aead == <<"aead">>  One_aeadq == <<"aeadq">>  One_pkesk == <<"pkesk">>
 
